@@ -185,6 +185,20 @@ def run(R):
     R.check(not early, "C03.PUSH-ALL", hm.qualname + ":no-early-exit", R.site(hm, pl),
             "the push loop has no break/return", "the push loop can stop before all dependencies were pushed")
 
+    # ---- ROOT-PUSHED: the drain always puts the task it was asked for on the stack before it starts to loop
+    dm = ro.drain_method()
+    dcfg = cfg_of(dm)
+    rootp = q.param_names(dm.node)[1]
+    rpush = [n for n, c in kit.call_sites(dm, lambda c: q.call_name(c) == "self.%s.append" % sf and c.args and q.src(c.args[0]) == rootp)]
+    dloops = [x for x in dcfg.nodes if x.kind == "loop"]
+    R.need(dloops, "idiom: the drain's loop was not found")
+    p = dcfg.find_path([dcfg.entry], dloops, N, cut_nodes=rpush)
+    R.check(p is None and bool(rpush), "C03.ROOT-PUSHED", dm.qualname, R.site(dm),
+            "the task to wait for is pushed on every path to the drain loop",
+            "the drain loop can be reached without the requested task having been pushed (e.g. when it is on the stack already, lower down): the "
+            "loop above the entry height is empty, nothing runs the task, and the caller's `while not computed` spins forever - a nested value() "
+            "on a sibling that was yielded but has not started never returns", dcfg.fmt_path(p) if p else None)
+
     # ---- LAZY
     stm = ro.step_method_task()
     callers = R.res.callers_of(stm, kinds=("resolved",)) + [x for x in R.res.callers_of(stm, kinds=("cha",))]
